@@ -132,9 +132,14 @@ func cmdCheck(args []string) int {
 	knownFindings = known
 	// units
 	var units []*Unit
+	var deferredUnits []string
 	for _, k := range sortedKeys(p.contracts.Funcs) {
 		fc := p.contracts.Funcs[k]
 		if !hasProp(fc.Props, *prop) || (*only != "" && !strings.Contains(k, *only)) {
+			continue
+		}
+		if fc.ThoroughOnly && *tier != "thorough" {
+			deferredUnits = append(deferredUnits, fc.Key)
 			continue
 		}
 		units = append(units, p.verifyFunc(fc))
@@ -144,11 +149,18 @@ func cmdCheck(args []string) int {
 		if !hasProp(sc.FC.Props, *prop) || (*only != "" && !strings.Contains(k, *only)) {
 			continue
 		}
+		if sc.FC.ThoroughOnly && *tier != "thorough" {
+			deferredUnits = append(deferredUnits, sc.FC.Key)
+			continue
+		}
 		units = append(units, p.verifyScenario(sc))
 	}
 	for _, k := range sortedKeys(p.contracts.Lemmas) {
 		lm := p.contracts.Lemmas[k]
 		if !hasProp(lm.Props, *prop) || (*only != "" && !strings.Contains(k, *only)) {
+			continue
+		}
+		if lm.Axiom {
 			continue
 		}
 		if lm.Fact {
@@ -286,6 +298,7 @@ func cmdCheck(args []string) int {
 
 	// verdicts
 	violations := 0
+	engineErrors := 0
 	knownHits := 0
 	discharged := 0
 	total := 0
@@ -380,6 +393,10 @@ func cmdCheck(args []string) int {
 			continue
 		}
 		violations++
+		if r.Status == "error" {
+			engineErrors++
+			fmt.Printf("ENGINE-ERROR %s: %s\n", name, truncate(strings.TrimSpace(r.Output), 300))
+		}
 		fmt.Printf("FAILED %s [%s] status=%s solver=%s %.1fs\n   clause: %s\n", name, r.Obl.Kind, r.Status, r.Solver, r.Seconds, r.Obl.Src)
 		if m, ok := rep["model"].(map[string]string); ok && len(m) > 0 {
 			fmt.Printf("   counterexample: %s\n", modelString(m))
@@ -452,7 +469,7 @@ func cmdCheck(args []string) int {
 			"vcgen_s":               round3(vcSecs),
 			"solve_wall_s":          round3(solveSecs),
 			"known_findings_hit":    knownHits,
-			"deferred_to_thorough":  deferred,
+			"deferred_to_thorough":  append(deferred, deferredUnits...),
 			"failed":                failed,
 			"samples":               samples,
 			"contract_files":        p.contracts.Files,
@@ -468,6 +485,10 @@ func cmdCheck(args []string) int {
 	}
 	fmt.Printf("govc %s [%s]: %d units, %d obligations, %d discharged, %d known-finding, %d violations; load %.1fs vcgen %.1fs solve %.1fs\n",
 		*prop, *tier, len(units), total, discharged, knownHits, violations, loadSecs, vcSecs, solveSecs)
+	if engineErrors > 0 {
+		fmt.Fprintf(os.Stderr, "govc: %d malformed queries (engine fault): failing closed\n", engineErrors)
+		return 2
+	}
 	if violations > 0 {
 		return 1
 	}
